@@ -9,7 +9,7 @@ import json
 
 import vlib
 
-CLOCKS = ["blockchain/blockchain.go"]
+CLOCKS = ["blockchain/blockchain.go", "protocol/full.go"]
 
 
 def run_histories(ctx, quick, extra_args=(), sched=None):
